@@ -672,6 +672,13 @@ func (g *graph) compile(ctx context.Context, opt *graphCompileOptions) (*composa
 			return nil, fmt.Errorf("some node's input or output types cannot be inferred: %v", g.toValidateMap)
 		}
 	}
+	// a passthrough node that no data edge or branch reaches is never entered in toValidateMap,
+	// but it has no type (and no generic helper) either
+	for key, node := range g.nodes {
+		if node.inputType() == nil || node.outputType() == nil {
+			return nil, fmt.Errorf("node[%s]'s input or output types cannot be inferred: no edge or branch gives the passthrough node a type", key)
+		}
+	}
 
 	// every compilation gets its own pre-node handlers: g.handlerPreNode must not grow here,
 	// otherwise compiling again (or retrying a failed compile) would add the field mapping
